@@ -81,6 +81,10 @@ func cmdRound(p *lang.Process) error {
 			return roundWriter(p, roundNearestInteger(value))
 		}
 
+	case int(precision) == 0:
+		// eg `5e-1`: neither a decimal place pattern nor a multiple to round to
+		return fmt.Errorf("invalid precision `%s`", params[1])
+
 	default:
 		switch {
 		case roundDown:
